@@ -146,6 +146,10 @@ impl Default for UptimeTracker {
 }
 
 fn get_unix_time_ms() -> Option<u64> {
+    #[cfg(feature = "verif-hooks")]
+    if let Some(ms) = verif_clock::get() {
+        return Some(ms);
+    }
     let now = SystemTime::now();
     now.duration_since(UNIX_EPOCH)
         .ok()
@@ -513,4 +517,43 @@ pub fn check_ts_tcp(
     }
 
     (None, None)
+}
+
+/// Verification hook: injectable millisecond clock (feature `verif-hooks` only).
+/// A thread-local value takes precedence over the process-global one; when neither is
+/// set the system clock is used as usual.
+#[cfg(feature = "verif-hooks")]
+pub mod verif_clock {
+    use std::cell::Cell;
+    use std::sync::atomic::{AtomicU64, Ordering};
+
+    const UNSET: u64 = u64::MAX;
+    static GLOBAL_MS: AtomicU64 = AtomicU64::new(UNSET);
+    thread_local! {
+        static LOCAL_MS: Cell<u64> = const { Cell::new(UNSET) };
+    }
+
+    pub fn set_local(ms: u64) {
+        LOCAL_MS.with(|c| c.set(ms));
+    }
+    pub fn clear_local() {
+        LOCAL_MS.with(|c| c.set(UNSET));
+    }
+    pub fn set_global(ms: u64) {
+        GLOBAL_MS.store(ms, Ordering::SeqCst);
+    }
+    pub fn clear_global() {
+        GLOBAL_MS.store(UNSET, Ordering::SeqCst);
+    }
+    pub(crate) fn get() -> Option<u64> {
+        let local = LOCAL_MS.with(|c| c.get());
+        if local != UNSET {
+            return Some(local);
+        }
+        let global = GLOBAL_MS.load(Ordering::SeqCst);
+        if global != UNSET {
+            return Some(global);
+        }
+        None
+    }
 }
